@@ -38,14 +38,17 @@ namespace Capella.Geom
 
 /-! ### `_extract_relative_bendpoints` -/
 
+/-- `if len(bendpoints) == 1 or all(b == bendpoints[0] for b in bendpoints): return []` -/
+def collapseEqual (pts : List V2) : List V2 :=
+  match pts with
+  | [] => []
+  | p0 :: rest => if rest.all (fun b => b = p0) then [] else pts
+
 /-- `_extract_relative_bendpoints`: `sb` is `sourceport.bounds`, `anchor` the parsed `sourceAnchor`
 (`(0.5, 0.5)` when absent), `rel` the first two numbers of every `$`-separated item. -/
 def extractRelBendpoints (sb : Rect) (anchor : V2) (rel : List V2) : List V2 :=
   let refpos : V2 := sb.toBox.pos + sb.toBox.size.had anchor
-  let pts := rel.map (fun r => refpos + r)
-  match pts with
-  | [] => []
-  | p0 :: rest => if rest.all (fun b => b = p0) then [] else pts
+  collapseEqual (rel.map (fun r => refpos + r))
 
 /-! ### the angle decision of `snap_oblique` -/
 
@@ -83,12 +86,14 @@ instance (axis d : V2) : Decidable (onAxis axis d) := by unfold onAxis; infer_in
 
 def absV (a : V2) : V2 := ⟨rabs a.x, rabs a.y⟩
 
-/-- `snap_manhattan`: returns the points that replace `points[i]`, outermost first. -/
-def snapManhattanEnd (b : Box) (e nx : V2) : Except Err (List V2) :=
-  let axis := closestaxis (e - nx)
-  -- if not manhattan: points[i] = points[i] @ abs(axis) + points[next_i] @ (not axis.x, not axis.y)
-  let e1 : V2 := if onAxis axis (e - nx) then e
-    else e.had (absV axis) + nx.had ⟨b2r (axis.x = 0), b2r (axis.y = 0)⟩
+/-- `points[i] @ abs(axis) + points[next_i] @ (not axis.x, not axis.y)`: the end point moved onto the
+axis-parallel line through its neighbour -/
+def manhattanProject (axis e nx : V2) : V2 :=
+  e.had (absV axis) + nx.had ⟨b2r (axis.x = 0), b2r (axis.y = 0)⟩
+
+/-- the second half of `snap_manhattan`: snap the (axis-aligned) end point `e1`, insert a bend if the snapped point
+left the axis-parallel line.  Returns the points that replace `points[i]`, outermost first. -/
+def manhattanFinish (b : Box) (axis e1 nx : V2) : Except Err (List V2) :=
   match vectorSnap b e1 nx .manhattan with
   | .error err => .error err
   | .ok q =>
@@ -96,6 +101,11 @@ def snapManhattanEnd (b : Box) (e nx : V2) : Except Err (List V2) :=
       if q.y = e1.y then .ok [q] else .ok [q, ⟨q.x, e1.y⟩]
     else if q.x = e1.x then .ok [q]
     else .ok [q, ⟨e1.x, q.y⟩]
+
+/-- `snap_manhattan`: returns the points that replace `points[i]`, outermost first. -/
+def snapManhattanEnd (b : Box) (e nx : V2) : Except Err (List V2) :=
+  let axis := closestaxis (e - nx)
+  manhattanFinish b axis (if onAxis axis (e - nx) then e else manhattanProject axis e nx) nx
 
 /-- `snap_tree` (as repaired: the bend `(endpoint.x, points[next_i].y)` replaces `points[i]` and the
 end point is inserted outermost, like in `snap_manhattan`; before the repair the two were stored the
